@@ -104,7 +104,7 @@ CLAIMED = {
             "the symbolic runs execute the real numpy/pandas on object-dtype containers: that object and float64 containers get "
             "a view or a copy from the same operations is compared with the real libraries at the start of every run, and every "
             "sampled path and counterexample is re-executed on float64 containers; numeric kernels are functions of the "
-            "contents of their arguments (drivers of C01/C02); multi-block / mixed-dtype frames, MD3, ensembles and "
+            "contents of their arguments (drivers of C01/C02); multi-block / mixed-dtype frames, MD3 and "
             "FeatureCoverInjector outside the claim",
             "relational (non-interference) symbolic execution with z3: a detector handed caller-owned containers of symbolic "
             "cells (C / Fortran arrays, strided views, DataFrames, lists, Series) whose cells the caller overwrites in place "
